@@ -12,7 +12,6 @@ func OracleC09(tr *Trace) Verdict {
 	p := tr.Plan
 	v := Verdict{Premise: true}
 	claims := tr.Claims()
-	rtt := p.MaxRTT()
 	owns := map[string][]*Own{}
 	startsAfter := func(obj, seq int) int {
 		for _, a := range tr.APIs {
@@ -79,12 +78,10 @@ func OracleC09(tr *Trace) Verdict {
 					eff = a.Action.CtxTimeout
 				}
 			}
-			// wait for background work (<= timeout), optional Delete (one store round trip), optional wait
-			// for OnDemote (<= timeout again): the code's structure allows 2 x timeout + RTT
-			limit := 2*eff + rtt + p.hangFor() + time.Millisecond
-			if !a.Action.DeleteKey {
-				limit = 2*eff + time.Millisecond
-			}
+			// "within its time-out": the wait for background work, the optional delete of the record and the
+			// optional wait for OnDemote share one budget (they used to get the time-out each, and the delete
+			// none at all: repaired in the library)
+			limit := eff + time.Millisecond
 			if dur > limit {
 				v.Viols = append(v.Viols, Viol{At: a.RetT, Sig: "C09 stopwithcontext-too-slow", Msg: fmt.Sprintf("%s: StopWithContext(timeout %v) took %v (limit %v)", who, eff, dur, limit)})
 			}
